@@ -76,26 +76,48 @@ func msgBuilder(p *Prog) *builderInfo {
 // ipfixSender returns the function of pkg/exporter that calls the message builder and writes the result to the
 // connection, the call, and the builder.
 func ipfixSender(p *Prog) (*ssa.Function, *ssa.Call, *builderInfo) {
-	bi := msgBuilder(p)
+	s, _, c, bi := ipfixSenderEx(p)
+	return s, c, bi
+}
+
+// ipfixSenderEx finds, by role, the function that writes the IPFIX message to the connection (sender) and the function
+// that calls the message builder with the sequence number (stamper): the same function, or a helper the sender calls.
+func ipfixSenderEx(p *Prog) (sender, stamper *ssa.Function, call *ssa.Call, bi *builderInfo) {
+	bi = msgBuilder(p)
 	if bi == nil {
-		return nil, nil, nil
+		return nil, nil, nil, nil
 	}
-	for _, cs := range p.CallGraph().callers[bi.fn] {
+	hasWrite := func(f *ssa.Function) bool {
+		w := false
+		eachInstr(f, func(in ssa.Instruction) {
+			if c, ok := in.(*ssa.Call); ok && c.Call.IsInvoke() && c.Call.Method.Name() == "Write" {
+				w = true
+			}
+		})
+		return w
+	}
+	g := p.CallGraph()
+	for _, cs := range g.callers[bi.fn] {
 		c, ok := cs.(*ssa.Call)
 		if !ok || !keyInPkg(fnKey(cs.Parent()), "pkg/exporter") {
 			continue
 		}
-		hasWrite := false
-		eachInstr(cs.Parent(), func(in ssa.Instruction) {
-			if w, ok := in.(*ssa.Call); ok && w.Call.IsInvoke() && w.Call.Method.Name() == "Write" {
-				hasWrite = true
-			}
-		})
-		if hasWrite {
-			return cs.Parent(), c, bi
+		if hasWrite(cs.Parent()) {
+			return cs.Parent(), cs.Parent(), c, bi
 		}
 	}
-	return nil, nil, bi
+	for _, cs := range g.callers[bi.fn] {
+		c, ok := cs.(*ssa.Call)
+		if !ok || !keyInPkg(fnKey(cs.Parent()), "pkg/exporter") {
+			continue
+		}
+		for _, cs2 := range g.callers[cs.Parent()] {
+			if keyInPkg(fnKey(cs2.Parent()), "pkg/exporter") && hasWrite(cs2.Parent()) {
+				return cs2.Parent(), cs.Parent(), c, bi
+			}
+		}
+	}
+	return nil, nil, nil, bi
 }
 
 func isSeqField(v ssa.Value) bool {
@@ -127,7 +149,7 @@ func runC08(p *Prog, r *Report, tier string) {
 				"the sequence number is not a uint32: it does not wrap modulo 2^32 as RFC 7011 requires", false)
 		}
 	}
-	sender, cmCall, bi := ipfixSender(p)
+	sender, stamper, cmCall, bi := ipfixSenderEx(p)
 	if sender == nil {
 		r.Undecided("R-VALUE.seq", "anchor: the function that builds the IPFIX message and writes it", "pkg/exporter/process.go", "not found (no function stamps the header from parameters and no caller of it writes to the connection)")
 		checkSharing(p, r, "R-SHARE", "pkg/exporter", "ExportingProcess", map[string]string{
@@ -144,14 +166,19 @@ func runC08(p *Prog, r *Report, tier string) {
 			if a.Field != "seqNumber" || !a.Write {
 				continue
 			}
-			ok := f == sender || a.Constr
+			ok := f == sender || f == stamper || a.Constr
 			r.Check(ok, "R-OWNER.seq", fnKey(f)+": writes seqNumber", p.instrPos(a.In), "constructor or the IPFIX send function", "a function other than the constructor and the IPFIX send function modifies the sequence number", true)
 		}
 	}
 	// (2) value handed to CreateIPFIXMsg
 	seqArg := cmCall.Call.Args[bi.seq]
-	set := sender.Params[1]
-	construct := fnKey(sender) + ": sequence number in the header"
+	var set ssa.Value
+	for _, prm := range stamper.Params {
+		if typeName(prm.Type()) == "pkg/entities.Set" {
+			set = prm
+		}
+	}
+	construct := fnKey(stamper) + ": sequence number in the header"
 	why := ""
 	isNRec := func(v ssa.Value) bool {
 		c, ok := v.(*ssa.Call)
@@ -216,7 +243,7 @@ func runC08(p *Prog, r *Report, tier string) {
 	case isSeqLoad(seqArg):
 		// plain form: "if data { f = f + n }; CreateIPFIXMsg(..., f, ...)": the load must come after the guarded store
 		var store *ssa.Store
-		eachInstr(sender, func(in ssa.Instruction) {
+		eachInstr(stamper, func(in ssa.Instruction) {
 			if s, ok := in.(*ssa.Store); ok && isSeqField(s.Addr) {
 				store = s
 			}
@@ -276,9 +303,38 @@ func runC08(p *Prog, r *Report, tier string) {
 		if inLoop(w.Block()) {
 			okOne, whyW = false, "the Write is inside a loop: more than one write per message"
 		}
-		ex, ok := w.Call.Args[0].(*ssa.Extract)
-		if !ok || ex.Tuple != ssa.Value(cmCall) || ex.Index != 0 {
-			okOne, whyW = false, "the Write is not given the whole slice returned by CreateIPFIXMsg"
+		var msgTuple ssa.Value = cmCall
+		if stamper != sender {
+			// helper form: the sender calls the stamping helper exactly once (each call advances the sequence number) and the
+			// helper hands back the builder's result
+			hcalls := callsToFn(sender, stamper)
+			switch {
+			case len(hcalls) != 1:
+				okOne, whyW = false, fmt.Sprintf("the send function calls %s %d times: every call advances the sequence number again although one message is written", stamper.Name(), len(hcalls))
+			case inLoop(hcalls[0].Block()):
+				okOne, whyW = false, "the stamping helper is called in a loop"
+			default:
+				msgTuple = hcalls[0].(ssa.Value)
+				eachInstr(stamper, func(in ssa.Instruction) {
+					rt, ok := in.(*ssa.Return)
+					if !ok || len(rt.Results) == 0 {
+						return
+					}
+					if cst, ok := rt.Results[0].(*ssa.Const); ok && cst.IsNil() {
+						return
+					}
+					ex, ok := rt.Results[0].(*ssa.Extract)
+					if !ok || ex.Tuple != ssa.Value(cmCall) || ex.Index != 0 {
+						okOne, whyW = false, "the stamping helper does not return the message built by CreateIPFIXMsg"
+					}
+				})
+			}
+		}
+		if okOne {
+			ex, ok := w.Call.Args[0].(*ssa.Extract)
+			if !ok || ex.Tuple != msgTuple || ex.Index != 0 {
+				okOne, whyW = false, "the Write is not given the whole slice returned by CreateIPFIXMsg"
+			}
 		}
 	}
 	r.Check(okOne, "R-VALUE.one-write", fnKey(sender)+": exactly one Write of the whole message", p.pos(sender.Pos()), "one Write, outside any loop, of CreateIPFIXMsg's result", whyW, true)
@@ -377,4 +433,15 @@ func checkHeaderStamping(p *Prog, r *Report, rule string) {
 			r.Violation(rule, fnKey(cm)+": "+m+" argument", p.pos(cm.Pos()), "the header field is never set")
 		}
 	}
+}
+
+// callsToFn lists the call instructions in f whose static callee is g.
+func callsToFn(f, g *ssa.Function) []ssa.Instruction {
+	var out []ssa.Instruction
+	eachInstr(f, func(in ssa.Instruction) {
+		if c := callOf(in); c != nil && c.StaticCallee() == g {
+			out = append(out, in)
+		}
+	})
+	return out
 }
